@@ -714,7 +714,7 @@ Section Body.
       let* (segs, t2) := pop_split (S ",") t1 in
       let* vs := each_closed (r F_compute) segs in
       Ok (node "ASTColumnTypeExpression" [("name", VStr n); ("params", vtuple vs)], t2)
-    else Ok (node "ASTColumnTypeExpression" [("name", VStr n); ("params", vtuple [])], t1).
+    else Ok (node "ASTColumnTypeExpression" [("name", VStr n)], t1).      (* params: dataclass default *)
 
   Definition b_partition (already : bool) (ts : toks) : PR :=
     let* t1 := if already then Ok ts else match_pats (PS ["PARTITION"]) ts in
